@@ -65,6 +65,43 @@ def saveIndexOk : Nat → List Attempt → Bool
 def saveIndex {N : Type} (tmp fin : N) (bs : Bytes) (outcomes : List Attempt) : List (Op N) :=
   saveIndexOps tmp fin bs 3 outcomes
 
+/-! ### the same routine as the list of CALLS a tracer sees (failed calls included)
+
+`saveIndexOps` keeps only what changes the file system (the crash theorems are about it); the
+correspondence run observes every call, also the one that fails and ends the attempt.
+`saveIndexCalls_eff` (Proofs) says the two agree. -/
+
+/-- one call: performed, or failed without any effect. -/
+inductive Call (N : Type) where
+  | did (o : Op N)
+  | failed (o : Op N)
+  deriving Repr, DecidableEq
+
+def Call.eff {N : Type} : Call N → List (Op N)
+  | .did o => [o]
+  | .failed _ => []
+
+/-- the calls that had an effect. -/
+def effOps {N : Type} (cs : List (Call N)) : List (Op N) := cs.flatMap Call.eff
+
+/-- the calls of one attempt of `save_index` (`write_index_to_file` + `rename`), up to and
+including the failing one. `failWrite k`: `k` counts everything that reached the file in that
+attempt — `BufWriter`'s `Drop` writes what is still buffered after the error. -/
+def attemptCalls {N : Type} (tmp fin : N) (bs : Bytes) : Attempt → List (Call N)
+  | .ok => (atomicReplace tmp fin bs).map .did
+  | .failCreate => [.failed (.create tmp)]
+  | .failWrite k => [.did (.create tmp), .did (.write tmp (bs.take k)), .failed (.write tmp (bs.drop k))]
+  | .failSync => [.did (.create tmp), .did (.write tmp bs), .failed (.fsync tmp)]
+  | .failRename => [.did (.create tmp), .did (.write tmp bs), .did (.fsync tmp), .failed (.rename tmp fin)]
+
+/-- `save_index` as calls: after every failed attempt `remove_file(temp)` (its own result is
+ignored by the code; in Spec/Fs removing a missing name changes nothing). -/
+def saveIndexCalls {N : Type} (tmp fin : N) (bs : Bytes) : Nat → List Attempt → List (Call N)
+  | 0, _ => []
+  | _ + 1, [] => attemptCalls tmp fin bs .ok
+  | _ + 1, .ok :: _ => attemptCalls tmp fin bs .ok
+  | fuel + 1, a :: rest => attemptCalls tmp fin bs a ++ [.did (.unlink tmp)] ++ saveIndexCalls tmp fin bs fuel rest
+
 structure BucketSave (N : Type) where
   tmp : N
   fin : N
@@ -75,6 +112,20 @@ structure BucketSave (N : Type) where
 def saveAll {N : Type} : List (BucketSave N) → List (Op N)
   | [] => []
   | b :: rest => saveIndex b.tmp b.fin b.bytes b.outcomes ++ (if saveIndexOk 3 b.outcomes then saveAll rest else [])
+
+/-- `save_all` as calls. -/
+def saveAllCalls {N : Type} : List (BucketSave N) → List (Call N)
+  | [] => []
+  | b :: rest => saveIndexCalls b.tmp b.fin b.bytes 3 b.outcomes ++ (if saveIndexOk 3 b.outcomes then saveAllCalls rest else [])
+
+/-- the executed prefix of a call list: the effect of the first `i` calls and the first `k` bytes
+of call `i` when that is a performed write (mirror of `Spec.Fs.cutAt`; used by the driver, the
+harness enumerates the same `(i, k)`). -/
+def cutAtCalls {N : Type} (cs : List (Call N)) (i k : Nat) : List (Op N) :=
+  effOps (cs.take i) ++
+    (match cs.drop i with
+     | .did (.write n bs) :: _ => if k = 0 then [] else [.write n (bs.take k)]
+     | _ => [])
 
 /-- `ResidencyDb::save`: nothing when not dirty. -/
 def residencySave {N : Type} (dirty : Bool) (tmp fin : N) (bs : Bytes) : List (Op N) :=
